@@ -229,7 +229,8 @@ BOUNDS = {
              'receive / poll / iter_pending (plus two senders alone with one more preemption), on a lock-protected byte-wise device port, EchoPort, the IOPort wrapper over the '
              'device port and a MultiPort over two EchoPorts; message contents (note, velocity) symbolic; the sender mutates its '
              'message after send() returned; ParserQueue with 2 concurrent put_bytes and a poller (here every line of parser.py and tokenizer.py is a yield point too)',
-    'thorough': '<=2 preemptions for all programs (<=3 for the two smallest); 3 senders; 2 messages per sender with 2 receivers',
+    'thorough': '<=2 preemptions for all programs on the device port, EchoPort and IOPort (MultiPort programs stay at 1: its '
+                'polling loop has several times more yield points); 3 senders; 2 messages per sender with 2 receivers',
 }
 OUTSIDE = 'preemption INSIDE a source line / between bytecodes; more than 3 preemptions; more than 4 threads; real OS scheduling; ' \
           'backends that run their own threads (rtmidi callbacks). On the schedule dimension the solver certifies each ' \
@@ -252,7 +253,7 @@ def JOBS(tier):
             if kind == 'multi' and prog[1] > 1:
                 continue
             nthreads = prog[0] + prog[2]
-            params = {'kind': kind, 'program': prog, 'max_preempt': p}
+            params = {'kind': kind, 'program': prog, 'max_preempt': p if kind != 'multi' else 1}
             if nthreads >= 4:
                 # four threads: deviation bounding (round-robin picks at blocking points, a different
                 # pick costs like a preemption) instead of free choices at every blocking point
